@@ -1,18 +1,1062 @@
-//! Correspondence generators of the PRINT area (C10, C18). Scratch probe version.
+//! Correspondence generators of the PRINT area (C10, C18).
+//! Output: one line per case, `request \t impl-response [\t spec-request]`.
+//!
+//! Sub-commands (first argument):
+//!   c10-rt <n>      readable data (recursive generator): write, parse_text, write again        (C10, spec)
+//!   c10-trip <n>    readable data: source text `(quote <written>)` -> Vm::eval_text -> result -> text (C10, spec)
+//!   c10-eval <n>    readable data: Vm::eval of (quote d) as a Cell                                  (C10, spec)
+//!   c10-any <n>     arbitrary data (unreadable symbols, non-finite doubles, opaque values): round trip, model only
+//!   c10-print <n>   arbitrary data in display and write mode, model only
+//!   c10-chars <full|quick>  every scalar value as a character and inside strings                  (C10, spec)
+//!   sym-enc <n> | sym-dec <n> | sym-rt <n> | sym-rt2 <n> | sym-chars <full|quick>                  (C18)
+//!   sym-eq <n>      two symbols by production routes x collection schedules: eq?, names            (C18, spec)
+//!   probe <text>…   evaluate texts and print the results (manual use)
 use marwood::cell::Cell;
+use marwood::error::Error;
+use marwood::lex;
+use marwood::number::Number;
+use marwood::parse;
 use marwood::vm::Vm;
+use mwv::rng::Rng;
 use mwv::wire::*;
+use std::io::Write;
+use std::panic::AssertUnwindSafe;
+
+#[path = "../reader_parse.rs"]
+#[allow(dead_code)]
+mod rp;
+#[path = "../reader_num.rs"]
+#[allow(dead_code)]
+mod rn;
+use rp::{parse_err_class, Oracle};
+
+// ------------------------------------------------------------------ generators
+
+/// scalar values with weight on what the printer and the reader treat specially
+fn gen_char(rng: &mut Rng) -> char {
+    loop {
+        let v: u32 = match rng.below(14) {
+            0 | 1 | 2 => 0x61 + rng.below(26) as u32,
+            3 => 0x20 + rng.below(0x5f) as u32,
+            4 => *rng.pick(&[
+                0x20, 0x0a, 0x09, 0x0d, 0x00, 0x07, 0x08, 0x1b, 0x7f, 0x0b, 0x0c, 0x22, 0x5c, 0x28, 0x29, 0x3b, 0x23,
+                0x27, 0x60, 0x2c, 0x2e, 0x7c, 0x78, 0x58, 0x5b, 0x7b, 0x40, 0x2b, 0x2d, 0x30, 0x39,
+            ]),
+            5 => rng.below(0x20) as u32,
+            6 => 0x7f + rng.below(0x22) as u32,
+            7 => rng.below(0x100) as u32,
+            8 => *rng.pick(&[
+                0x85, 0xa0, 0xaa, 0xb5, 0xd7, 0xf7, 0xff, 0x100, 0x2028, 0x2029, 0x3000, 0xd7ff, 0xe000, 0xfeff,
+                0xfffd, 0xffff, 0x10000, 0x1f600, 0x10ffff, 0x3bb,
+            ]),
+            9 => 0x2000 + rng.below(0x70) as u32,
+            10 | 11 => rng.below(0x10000) as u32,
+            _ => rng.below(0x110000) as u32,
+        };
+        if let Some(c) = char::from_u32(v) {
+            return c;
+        }
+    }
+}
+
+fn gen_string(rng: &mut Rng) -> String {
+    let n = match rng.below(8) {
+        0 => 0,
+        1 => 1,
+        7 => 9 + rng.below(12),
+        _ => 2 + rng.below(6),
+    };
+    (0..n).map(|_| gen_char(rng)).collect()
+}
+
+/// does the reader, given exactly this text, produce the symbol with this spelling?
+fn reads_as_symbol(s: &str) -> bool {
+    let t = s.to_string();
+    matches!(catch(move || parse::parse_text(&t).map(|(c, r)| (c, r.is_none()))),
+             Ok(Ok((Cell::Symbol(y), true))) if y == s)
+}
+
+fn ident_char(rng: &mut Rng, first: bool) -> char {
+    match rng.below(10) {
+        0 => *rng.pick(&['!', '$', '%', '&', '*', '/', ':', '<', '=', '>', '?', '^', '_', '~']),
+        1 if !first => *rng.pick(&['0', '1', '7', '9', '+', '-', '.', '@', ';']),
+        2 => *rng.pick(&['λ', 'é', 'ß', 'µ', 'ª', '日', '本', '😀', 'Ω', 'ÿ', 'À']),
+        3 => (b'A' + rng.below(26) as u8) as char,
+        _ => (b'a' + rng.below(26) as u8) as char,
+    }
+}
+
+/// a spelling the reader produces as a symbol from the text of the spelling itself
+fn gen_reader_symbol(rng: &mut Rng) -> String {
+    loop {
+        let s: String = match rng.below(10) {
+            0 => rng
+                .pick(&[
+                    "+", "-", "...", "->x", "a.b", "1+", "-a", "<=?", "!x", "$%&*/:<=>?^_~", "quote", "quasiquote",
+                    "unquote", "lambda", "λ", "a@b", "a;b", "x1", "..", ".a", "+.", "-.", "a\\b", "\\", "日本", "é",
+                    "a+", "a-b", "1/0", "0/0", "1a", "12ab", "1.2.3", "-+5", "+-5", "++", "--", "1e", "e1", "inf",
+                    "nan", "-inf", "+inf", "NaN", "a\\x41;b", "\\x41;", "x", "X", "t", "f", "define", "if", ".5.",
+                    "1/2/3", "1//2", "+a", ".+", "-.5a", "1_000", "a\\", "\\\\", "\\x;", "ff", "e", "1f5", "-e",
+                ])
+                .to_string(),
+            1 => {
+                // number-initial tokens that may or may not be numbers
+                let n = 1 + rng.below(4);
+                let mut s = String::new();
+                s.push(*rng.pick(&['+', '-', '1', '9', '.', '0']));
+                for _ in 0..n {
+                    s.push(*rng.pick(&['0', '1', '5', 'a', 'e', 'f', '.', '/', '+', '-', 'x', 'g', '@']));
+                }
+                s
+            }
+            2 => {
+                let mut s = String::new();
+                s.push(gen_char(rng));
+                if rng.chance(1, 2) {
+                    s.push(gen_char(rng));
+                }
+                s
+            }
+            _ => {
+                let n = 1 + rng.below(7);
+                (0..n).map(|i| ident_char(rng, i == 0)).collect()
+            }
+        };
+        if reads_as_symbol(&s) {
+            return s;
+        }
+    }
+}
+
+/// symbols the reader produces only behind a radix prefix (`#b12` is the symbol `12`)
+fn gen_prefix_only_symbol(rng: &mut Rng) -> String {
+    rng.pick(&["12", "9", "1/2", "102", "7/8", "-2", "+19", "8", "1/9"]).to_string()
+}
+
+fn gen_any_symbol(rng: &mut Rng) -> String {
+    match rng.below(6) {
+        0 => rng
+            .pick(&["", " ", "a b", "(", ")", "1", "12", "#t", "\"", "'a", "a)", ".", "a\nb", ";", "#\\a", "1.5", "a(b"])
+            .to_string(),
+        1 => gen_string(rng),
+        _ => gen_reader_symbol(rng),
+    }
+}
+
+fn finite(n: &Number) -> bool {
+    match n {
+        Number::Float(f) => f.is_finite(),
+        _ => true,
+    }
+}
+
+fn sym(s: &str) -> Cell {
+    Cell::Symbol(s.to_string())
+}
+
+fn quote(c: Cell) -> Cell {
+    Cell::new_list(vec![sym("quote"), c])
+}
+
+#[derive(Clone, Copy, PartialEq)]
+enum Kind {
+    /// what C10 quantifies over (reader-producible symbols, finite doubles, no opaque values)
+    Readable,
+    /// Readable plus (rarely) symbols the reader produces only behind a radix prefix
+    ReadablePlus,
+    /// anything a Cell can hold
+    Any,
+}
+
+fn gen_atom(rng: &mut Rng, kind: Kind) -> Cell {
+    match rng.below(16) {
+        0 => Cell::Bool(rng.chance(1, 2)),
+        1 | 2 | 3 => loop {
+            let n = rn::random_number(rng);
+            if kind == Kind::Any || finite(&n) {
+                break Cell::Number(n);
+            }
+        },
+        4 | 5 => Cell::Char(gen_char(rng)),
+        6 | 7 | 8 => Cell::String(gen_string(rng)),
+        9 => Cell::Nil,
+        10 if kind == Kind::Any => match rng.below(8) {
+            0 => Cell::Undefined,
+            1 => Cell::Void,
+            2 => Cell::Procedure(None),
+            3 => Cell::Procedure(Some("car".into())),
+            4 => Cell::Macro,
+            5 => Cell::Continuation,
+            _ => Cell::Symbol(gen_any_symbol(rng)),
+        },
+        _ => {
+            if kind == Kind::Any {
+                Cell::Symbol(gen_any_symbol(rng))
+            } else if kind == Kind::ReadablePlus && rng.chance(1, 200) {
+                Cell::Symbol(gen_prefix_only_symbol(rng))
+            } else {
+                Cell::Symbol(gen_reader_symbol(rng))
+            }
+        }
+    }
+}
+
+fn gen_datum(rng: &mut Rng, depth: u32, kind: Kind) -> Cell {
+    let k = if depth == 0 { 0 } else { rng.below(12) };
+    match k {
+        0..=3 => gen_atom(rng, kind),
+        4 | 5 => {
+            let n = rng.below(5);
+            Cell::new_list((0..n).map(|_| gen_datum(rng, depth - 1, kind)).collect::<Vec<_>>())
+        }
+        6 => {
+            let n = 1 + rng.below(4);
+            let v: Vec<Cell> = (0..n).map(|_| gen_datum(rng, depth - 1, kind)).collect();
+            let tail = gen_datum(rng, depth - 1, kind);
+            Cell::new_improper_list(v, tail)
+        }
+        7 | 8 => {
+            let n = rng.below(5);
+            Cell::Vector((0..n).map(|_| gen_datum(rng, depth - 1, kind)).collect())
+        }
+        9 => quote(gen_datum(rng, depth - 1, kind)),
+        10 => {
+            // shapes around the quote sugar
+            let x = gen_datum(rng, depth - 1, kind);
+            let y = gen_datum(rng, depth - 1, kind);
+            match rng.below(8) {
+                0 => Cell::new_list(vec![sym("quote")]),
+                1 => Cell::new_list(vec![sym("quote"), x, y]),
+                2 => Cell::new_improper_list(vec![sym("quote")], x),
+                3 => Cell::new_list(vec![sym("quasiquote"), x]),
+                4 => Cell::new_list(vec![sym("unquote"), x]),
+                5 => Cell::new_list(vec![x, sym("quote"), y]),
+                6 => Cell::new_improper_list(vec![x], quote(y)),
+                _ => quote(quote(x)),
+            }
+        }
+        _ => Cell::new_pair(gen_datum(rng, depth - 1, kind), gen_datum(rng, depth - 1, kind)),
+    }
+}
+
+fn pick_depth(rng: &mut Rng) -> u32 {
+    match rng.below(10) {
+        0 | 1 => 0,
+        2 | 3 => 1,
+        4 | 5 => 2,
+        6 => 3,
+        7 => 4,
+        8 => 5,
+        _ => 6,
+    }
+}
+
+// ------------------------------------------------------------------ running the real code
+
+fn write_of(c: &Cell) -> String {
+    format!("{:#}", c)
+}
+
+/// write, read back, write again. `ok <w> | <d'> | <rest> | <w2>`
+fn impl_roundtrip(d: &Cell, o: &mut Oracle) -> String {
+    o.add_print_cell(d);
+    let d2 = d.clone();
+    let w = match catch(move || write_of(&d2)) {
+        Ok(w) => w,
+        Err(_) => return "panic write".into(),
+    };
+    rp::oracle_for_text(&w, o);
+    let t = w.clone();
+    let r = catch(move || parse::parse_text(&t).map(|(c, rest)| (c, rest.map(|s| s.to_string()))));
+    match r {
+        Err(_) => format!("ok {} | panic", enc_text(&w)),
+        Ok(Err(e)) => format!("ok {} | err {}", enc_text(&w), parse_err_class(&e)),
+        Ok(Ok((c, rest))) => {
+            o.add_print_cell(&c);
+            let c2 = c.clone();
+            let w2 = catch(move || write_of(&c2)).unwrap_or_else(|_| "PANIC".into());
+            format!(
+                "ok {} | {} | {} | {}",
+                enc_text(&w),
+                enc_datum(&c),
+                rest.map(|s| enc_text(&s)).unwrap_or_else(|| "none".into()),
+                enc_text(&w2)
+            )
+        }
+    }
+}
+
+fn vm_err_class(e: &Error) -> String {
+    match e {
+        Error::ParseError(p) => format!("Parse:{}", parse_err_class(p)),
+        other => rn::vm_err_class(other),
+    }
+}
+
+fn eval_cell(vm: &mut Vm, form: &Cell) -> Result<Result<Cell, Error>, String> {
+    let form = form.clone();
+    let mut vmref = AssertUnwindSafe(vm);
+    catch(move || vmref.eval(&form))
+}
+
+fn show_eval(r: &Result<Result<Cell, Error>, String>) -> String {
+    match r {
+        Err(_) => "panic".into(),
+        Ok(Ok(c)) => format!("ok {}", enc_datum(c)),
+        Ok(Err(e)) => format!("err {}", vm_err_class(e)),
+    }
+}
+
+/// source text `(quote <w>)` -> VM heap -> result -> text. `ok <w> | <result> | <w2>`
+fn impl_trip(vm: &mut Vm, d: &Cell, o: &mut Oracle) -> String {
+    o.add_print_cell(d);
+    let w = write_of(d);
+    let src = format!("(quote {})", w);
+    rp::oracle_for_text(&src, o);
+    let mut vmref = AssertUnwindSafe(vm);
+    let r = catch(move || vmref.eval_text(&src).map(|(c, rest)| (c, rest.is_none())));
+    match r {
+        Err(_) => format!("ok {} | panic", enc_text(&w)),
+        Ok(Err(e)) => format!("ok {} | err {}", enc_text(&w), vm_err_class(&e)),
+        Ok(Ok((_, false))) => format!("ok {} | trailing", enc_text(&w)),
+        Ok(Ok((c, true))) => {
+            o.add_print_cell(&c);
+            format!("ok {} | {} | {}", enc_text(&w), enc_datum(&c), enc_text(&write_of(&c)))
+        }
+    }
+}
+
+// ------------------------------------------------------------------ C18: symbols
+
+fn call1(vm: &mut Vm, name: &str, arg: Cell) -> Result<Result<Cell, Error>, String> {
+    eval_cell(vm, &Cell::new_list(vec![sym(name), arg]))
+}
+
+fn show_text_result(r: &Result<Result<Cell, Error>, String>) -> String {
+    match r {
+        Err(_) => "panic".into(),
+        Ok(Ok(Cell::Symbol(s))) | Ok(Ok(Cell::String(s))) => format!("ok {}", enc_text(s)),
+        Ok(Ok(c)) => format!("ok? {}", enc_datum(c)),
+        Ok(Err(e)) => format!("err {}", vm_err_class(e)),
+    }
+}
+
+/// strings given to string->symbol
+fn gen_name(rng: &mut Rng) -> String {
+    match rng.below(10) {
+        0 => rng
+            .pick(&[
+                "", " ", "a b", "\\", "a\\b", "\\x41;", "A", "1", "12foo", " foo", "+", "-", "...", "1+", "a;b", ";",
+                "(", ")", "#t", "\"", "'", "a\\", "\\\\", "x", "\\x", "λ", "a\tb", "\n", ".", "..", "a.b", "@", "@a", "a@",
+                "\u{85}", "\u{a0}", "\u{2028}", "😀", "\u{10ffff}", "\0", "a\0b", "|a|", "#", "a#", "é", "×", "÷",
+            ])
+            .to_string(),
+        1 | 2 => gen_reader_symbol(rng),
+        3 => {
+            // digit / sign / dot initial
+            let mut s = String::new();
+            s.push(*rng.pick(&['0', '7', '+', '-', '.', '@', ';', '#']));
+            let n = rng.below(4);
+            for i in 0..n {
+                s.push(ident_char(rng, i == 0));
+            }
+            s
+        }
+        _ => gen_string(rng),
+    }
+}
+
+/// spellings handed to symbol->string
+fn gen_spelling(vm: &mut Vm, rng: &mut Rng) -> String {
+    match rng.below(8) {
+        0 | 1 => gen_reader_symbol(rng),
+        2 | 3 => {
+            // what string->symbol builds
+            let s = gen_name(rng);
+            match call1(vm, "string->symbol", Cell::String(s.clone())) {
+                Ok(Ok(Cell::Symbol(y))) => y,
+                _ => s,
+            }
+        }
+        4 => {
+            // escapes of every kind, valid or not
+            let mut s = String::new();
+            let n = 1 + rng.below(4);
+            for _ in 0..n {
+                match rng.below(8) {
+                    0 => s.push_str(*rng.pick(&["\\n", "\\t", "\\a", "\\b", "\\\\", "\\q", "\\(", "\\"])),
+                    1 => s.push_str(&format!("\\x{:x};", gen_char(rng) as u32)),
+                    2 => s.push_str(&format!("\\x{:X};", gen_char(rng) as u32)),
+                    3 => s.push_str(*rng.pick(&[
+                        "\\x;", "\\x41", "\\xzz;", "\\x110000;", "\\xd800;", "\\xffffffff;", "\\x100000000;",
+                        "\\x0041;", "\\X41;", "\\x",
+                    ])),
+                    _ => s.push(ident_char(rng, false)),
+                }
+            }
+            s
+        }
+        _ => gen_any_symbol(rng),
+    }
+}
+
+#[derive(Clone, Debug)]
+enum Route {
+    /// `'y` in source text
+    LitText(String),
+    /// `(quote y)` handed to the compiler as a Cell
+    Quoted(String),
+    /// `(string->symbol "s")`
+    S2S(String),
+    /// the literal in the template of a macro
+    Macro(String),
+    /// `(eval ''y)` / `(eval '(quote y))`
+    Eval(String),
+    /// `(eval '(string->symbol "s"))`
+    EvalS2S(String),
+    /// `(car '(y z))`
+    CarOfList(String),
+    /// `(string->symbol (symbol->string 'y))`
+    ReS2S(String),
+}
+
+impl Route {
+    fn name(&self) -> &'static str {
+        match self {
+            Route::LitText(_) => "lit",
+            Route::Quoted(_) => "quoted",
+            Route::S2S(_) => "s2s",
+            Route::Macro(_) => "macro",
+            Route::Eval(_) => "eval",
+            Route::EvalS2S(_) => "eval-s2s",
+            Route::CarOfList(_) => "car",
+            Route::ReS2S(_) => "re-s2s",
+        }
+    }
+}
+
+static MACRO_COUNTER: std::sync::atomic::AtomicU64 = std::sync::atomic::AtomicU64::new(0);
+
+/// evaluate whatever the route needs beforehand, return the expression that yields the symbol
+fn route_expr(vm: &mut Vm, r: &Route) -> Option<Cell> {
+    Some(match r {
+        Route::LitText(y) => {
+            let t = format!("'{}", y);
+            match parse::parse_text(&t) {
+                Ok((c, None)) => c,
+                _ => return None,
+            }
+        }
+        Route::Quoted(y) => quote(sym(y)),
+        Route::S2S(s) => Cell::new_list(vec![sym("string->symbol"), Cell::String(s.clone())]),
+        Route::Macro(y) => {
+            let n = MACRO_COUNTER.fetch_add(1, std::sync::atomic::Ordering::Relaxed);
+            let m = format!("zq-macro-{}", n);
+            let def = Cell::new_list(vec![
+                sym("define-syntax"),
+                sym(&m),
+                Cell::new_list(vec![
+                    sym("syntax-rules"),
+                    Cell::Nil,
+                    Cell::new_list(vec![Cell::new_list(vec![sym("_")]), quote(sym(y))]),
+                ]),
+            ]);
+            match eval_cell(vm, &def) {
+                Ok(Ok(_)) => {}
+                _ => return None,
+            }
+            Cell::new_list(vec![sym(&m)])
+        }
+        Route::Eval(y) => Cell::new_list(vec![sym("eval"), quote(quote(sym(y)))]),
+        Route::EvalS2S(s) => Cell::new_list(vec![
+            sym("eval"),
+            quote(Cell::new_list(vec![sym("string->symbol"), Cell::String(s.clone())])),
+        ]),
+        Route::CarOfList(y) => {
+            Cell::new_list(vec![sym("car"), quote(Cell::new_list(vec![sym(y), sym("zq-other")]))])
+        }
+        Route::ReS2S(y) => Cell::new_list(vec![
+            sym("string->symbol"),
+            Cell::new_list(vec![sym("symbol->string"), quote(sym(y))]),
+        ]),
+    })
+}
+
+/// a route that produces the symbol whose *name* is `s` (`enc` = what string->symbol spells it)
+fn route_for_name(rng: &mut Rng, s: &str, enc: &str) -> Route {
+    let literal_ok = reads_as_symbol(enc) && enc != "_" && enc != "...";
+    loop {
+        let r = match rng.below(8) {
+            0 if literal_ok => Route::LitText(enc.to_string()),
+            1 => Route::Quoted(enc.to_string()),
+            2 => Route::S2S(s.to_string()),
+            3 if enc != "_" && enc != "..." => Route::Macro(enc.to_string()),
+            4 => Route::Eval(enc.to_string()),
+            5 => Route::EvalS2S(s.to_string()),
+            6 => Route::CarOfList(enc.to_string()),
+            7 => Route::ReS2S(enc.to_string()),
+            _ => continue,
+        };
+        return r;
+    }
+}
+
+/// a route that produces the symbol with *spelling* `y`
+fn route_for_spelling(rng: &mut Rng, y: &str) -> Route {
+    let literal_ok = reads_as_symbol(y) && y != "_" && y != "...";
+    loop {
+        let r = match rng.below(5) {
+            0 if literal_ok => Route::LitText(y.to_string()),
+            1 => Route::Quoted(y.to_string()),
+            2 if y != "_" && y != "..." => Route::Macro(y.to_string()),
+            3 => Route::Eval(y.to_string()),
+            4 => Route::CarOfList(y.to_string()),
+            _ => continue,
+        };
+        return r;
+    }
+}
+
+fn garbage_form(rng: &mut Rng) -> Cell {
+    let n = 2 + rng.below(12);
+    let t = format!(
+        "(let loop ((i 0) (acc '())) (if (< i {}) (loop (+ i 1) (cons (string->symbol (string-append \"zq-g\" (number->string i))) (cons (vector i 'zq-junk \"s\") acc))) (length acc)))",
+        n
+    );
+    parse::parse_text(&t).unwrap().0
+}
+
+fn encode_name(vm: &mut Vm, s: &str) -> String {
+    match call1(vm, "string->symbol", Cell::String(s.to_string())) {
+        Ok(Ok(Cell::Symbol(y))) => y,
+        _ => s.to_string(),
+    }
+}
+
+/// spellings interned in a VM that has evaluated nothing yet (builtins and prelude)
+fn fresh_symbols() -> &'static std::collections::HashSet<String> {
+    static FRESH: std::sync::OnceLock<std::collections::HashSet<String>> = std::sync::OnceLock::new();
+    FRESH.get_or_init(|| Vm::new().verif_heap().verif_symbol_table().keys().cloned().collect())
+}
+
+/// one case of the interning exploration; None when a route could not be set up
+fn sym_eq_case(rng: &mut Rng) -> Option<String> {
+    let mut vm = Vm::new();
+    // the pair of productions
+    let (r1, r2) = match rng.below(10) {
+        0 | 1 | 2 => {
+            // one name, two routes
+            let s = if rng.chance(1, 2) { gen_reader_symbol(rng) } else { gen_name(rng) };
+            let enc = encode_name(&mut vm, &s);
+            (route_for_name(rng, &s, &enc), route_for_name(rng, &s, &enc))
+        }
+        3 | 4 => {
+            // two names
+            let s1 = gen_name(rng);
+            let s2 = if rng.chance(1, 3) {
+                // a near miss: case, one more character, an escape spelled out
+                match rng.below(4) {
+                    0 => s1.to_uppercase(),
+                    1 => format!("{}a", s1),
+                    2 => s1.chars().map(|c| format!("\\x{:x};", c as u32)).collect(),
+                    _ => format!(" {}", s1),
+                }
+            } else {
+                gen_name(rng)
+            };
+            let e1 = encode_name(&mut vm, &s1);
+            let e2 = encode_name(&mut vm, &s2);
+            (route_for_name(rng, &s1, &e1), route_for_name(rng, &s2, &e2))
+        }
+        5 | 6 => {
+            // one spelling, two routes
+            let y = gen_reader_symbol(rng);
+            (route_for_spelling(rng, &y), route_for_spelling(rng, &y))
+        }
+        7 => {
+            // a reader spelling against string->symbol of its name
+            let y = gen_reader_symbol(rng);
+            let name = match call1(&mut vm, "symbol->string", quote(sym(&y))) {
+                Ok(Ok(Cell::String(s))) => s,
+                _ => return None,
+            };
+            let a = route_for_spelling(rng, &y);
+            let b = if rng.chance(1, 2) { Route::S2S(name) } else { Route::EvalS2S(name) };
+            if rng.chance(1, 2) {
+                (a, b)
+            } else {
+                (b, a)
+            }
+        }
+        _ => {
+            let y1 = gen_reader_symbol(rng);
+            let y2 = gen_reader_symbol(rng);
+            (route_for_spelling(rng, &y1), route_for_spelling(rng, &y2))
+        }
+    };
+    // schedule
+    let every: Option<usize> = *rng.pick(&[None, None, None, Some(1), Some(2), Some(3), Some(5), Some(7), Some(16), Some(50)]);
+    let shape = rng.below(4); // 0: across evaluations, 1: across with forced collections and garbage, 2: within one evaluation, 3: drop and re-intern
+    let e1 = route_expr(&mut vm, &r1)?;
+    let e2 = route_expr(&mut vm, &r2)?;
+    vm.verif_set_gc_every(every);
+    let collections_before = vm.verif_state().collections;
+    let def = |name: &str, e: Cell| Cell::new_list(vec![sym("define"), sym(name), e]);
+    let mut ok = true;
+    let run = |vm: &mut Vm, f: &Cell| -> bool { matches!(eval_cell(vm, f), Ok(Ok(_))) };
+    let (na, nb): (&str, &str);
+    let mut extra_oracle: Option<String> = None;
+    match shape {
+        0 => {
+            ok &= run(&mut vm, &def("zq-a", e1));
+            ok &= run(&mut vm, &def("zq-b", e2));
+            na = "zq-a";
+            nb = "zq-b";
+        }
+        1 => {
+            ok &= run(&mut vm, &def("zq-a", e1));
+            vm.verif_force_gc();
+            ok &= run(&mut vm, &garbage_form(rng));
+            vm.verif_force_gc();
+            ok &= run(&mut vm, &def("zq-b", e2));
+            vm.verif_force_gc();
+            na = "zq-a";
+            nb = "zq-b";
+        }
+        2 => {
+            // (define zq-p (let* ((a e1) (j <garbage>) (b e2)) (cons a b)))
+            let form = Cell::new_list(vec![
+                sym("let*"),
+                Cell::new_list(vec![
+                    Cell::new_list(vec![sym("a"), e1]),
+                    Cell::new_list(vec![sym("j"), garbage_form(rng)]),
+                    Cell::new_list(vec![sym("b"), e2]),
+                ]),
+                Cell::new_list(vec![sym("cons"), sym("a"), sym("b")]),
+            ]);
+            ok &= run(&mut vm, &def("zq-p", form));
+            ok &= run(&mut vm, &def("zq-a", Cell::new_list(vec![sym("car"), sym("zq-p")])));
+            ok &= run(&mut vm, &def("zq-b", Cell::new_list(vec![sym("cdr"), sym("zq-p")])));
+            na = "zq-a";
+            nb = "zq-b";
+        }
+        _ => {
+            // the first production is dropped and swept, then both are produced
+            ok &= run(&mut vm, &def("zq-a", e1.clone()));
+            let first = match eval_cell(&mut vm, &sym("zq-a")) {
+                Ok(Ok(Cell::Symbol(s))) => Some(s),
+                _ => None,
+            };
+            ok &= run(&mut vm, &def("zq-a", Cell::Number(Number::Fixnum(0))));
+            vm.verif_force_gc();
+            // the table entry of an otherwise unreferenced spelling is gone (a macro definition keeps
+            // the spelling of its template alive, so only macro-free cases are checked, and only names
+            // a fresh VM does not know)
+            let no_macro = !matches!(r1, Route::Macro(_)) && !matches!(r2, Route::Macro(_));
+            if let (Some(s), Route::S2S(_) | Route::EvalS2S(_), true) = (&first, &r1, no_macro) {
+                if !fresh_symbols().contains(s) && !s.starts_with("zq-") {
+                    let present = vm.verif_heap().verif_symbol_table().contains_key(s);
+                    extra_oracle = Some(format!(
+                        "#oracle swept-symbol-leaves-the-table {}\t{}\tabsent",
+                        enc_text(s),
+                        if present { "present" } else { "absent" }
+                    ));
+                }
+            }
+            ok &= run(&mut vm, &def("zq-b", e2));
+            ok &= run(&mut vm, &def("zq-c", e1));
+            vm.verif_force_gc();
+            na = "zq-b";
+            nb = "zq-c";
+        }
+    }
+    if !ok {
+        return None;
+    }
+    vm.verif_set_gc_every(None);
+    let collections = vm.verif_state().collections - collections_before;
+    let a = eval_cell(&mut vm, &sym(na));
+    let b = eval_cell(&mut vm, &sym(nb));
+    let (sa, sb) = match (&a, &b) {
+        (Ok(Ok(Cell::Symbol(x))), Ok(Ok(Cell::Symbol(y)))) => (x.clone(), y.clone()),
+        _ => return None,
+    };
+    let eq = eval_cell(&mut vm, &Cell::new_list(vec![sym("eq?"), sym(na), sym(nb)]));
+    let eq = match eq {
+        Ok(Ok(Cell::Bool(b))) => {
+            if b {
+                "b1"
+            } else {
+                "b0"
+            }
+        }
+        Err(_) => "panic",
+        _ => "err",
+    };
+    let s2s = |n: &str| Cell::new_list(vec![sym("symbol->string"), sym(n)]);
+    let nameeq = eval_cell(&mut vm, &Cell::new_list(vec![sym("string=?"), s2s(na), s2s(nb)]));
+    let nameeq = match nameeq {
+        Ok(Ok(Cell::Bool(true))) => "b1",
+        Ok(Ok(Cell::Bool(false))) => "b0",
+        Err(_) => "panic",
+        _ => "err",
+    };
+    let mode = match shape {
+        3 => "drop",
+        _ => {
+            if collections > 0 {
+                "keep"
+            } else {
+                "none"
+            }
+        }
+    };
+    let shape_name = ["across", "across-forced", "within", "drop"][shape as usize];
+    let mut line = format!(
+        "c18-eq {} {} {} {}+{}/{}/every-{}/gc{}\tok {} {}\tspec-c18-eq {} {}",
+        mode,
+        enc_text(&sa),
+        enc_text(&sb),
+        r1.name(),
+        r2.name(),
+        shape_name,
+        every.map(|k| k.to_string()).unwrap_or_else(|| "none".into()),
+        collections.min(9),
+        eq,
+        nameeq,
+        enc_text(&sa),
+        enc_text(&sb)
+    );
+    if let Some(o) = extra_oracle {
+        line.push('\n');
+        line.push_str(&o);
+    }
+    Some(line)
+}
+
+// ------------------------------------------------------------------ main
+
+fn scalar_blocks(full: bool, rng: &mut Rng) -> Vec<Vec<char>> {
+    // blocks of 16 consecutive scalar values; `full` = all of Unicode
+    let mut starts: Vec<u32> = vec![];
+    if full {
+        starts.extend((0..0x110000u32).step_by(16));
+    } else {
+        starts.extend((0..0x3000u32).step_by(16));
+        starts.extend([0xd7f0, 0xe000, 0xfff0, 0x10000, 0x1f600, 0x10fff0]);
+        for _ in 0..600 {
+            starts.push((rng.below(0x110000) as u32) & !15);
+        }
+    }
+    starts
+        .into_iter()
+        .map(|s| (s..s + 16).filter_map(char::from_u32).collect::<Vec<char>>())
+        .filter(|v| !v.is_empty())
+        .collect()
+}
 
 fn main() {
     silence_panics();
     let args: Vec<String> = std::env::args().collect();
     let cmd = args.get(1).map(|s| s.as_str()).unwrap_or("");
+    let seed: u64 = std::env::var("VERIF_SEED").ok().and_then(|s| s.parse().ok()).unwrap_or(1);
+    let out = std::io::stdout();
+    let mut out = std::io::BufWriter::new(out.lock());
+    let n: usize = args.get(2).and_then(|s| s.parse().ok()).unwrap_or(0);
     match cmd {
+        "c10-rt" | "c10-any" => {
+            let mut rng = Rng::new(seed ^ if cmd == "c10-rt" { 0x1010 } else { 0x1011 });
+            let kind = if cmd == "c10-rt" { Kind::ReadablePlus } else { Kind::Any };
+            for _ in 0..n {
+                let depth = pick_depth(&mut rng);
+                let d = gen_datum(&mut rng, depth, kind);
+                let mut o = Oracle::default();
+                let imp = impl_roundtrip(&d, &mut o);
+                let e = enc_datum(&d);
+                if cmd == "c10-rt" {
+                    writeln!(out, "c10-rt {} {}\t{}\tspec-c10-rt {}", o.render(), e, imp, e).unwrap();
+                } else {
+                    writeln!(out, "c10-rt {} {}\t{}", o.render(), e, imp).unwrap();
+                }
+            }
+        }
+        "c10-print" => {
+            let mut rng = Rng::new(seed ^ 0x1012);
+            for _ in 0..n {
+                let depth = pick_depth(&mut rng);
+                let d = gen_datum(&mut rng, depth, Kind::Any);
+                let mut o = Oracle::default();
+                o.add_print_cell(&d);
+                let alt = rng.chance(1, 2);
+                let d2 = d.clone();
+                let t = catch(move || if alt { format!("{:#}", d2) } else { format!("{}", d2) });
+                let imp = match t {
+                    Ok(t) => format!("ok {}", enc_text(&t)),
+                    Err(_) => "panic".into(),
+                };
+                writeln!(out, "print {} {} {}\t{}", o.render(), if alt { 1 } else { 0 }, enc_datum(&d), imp).unwrap();
+            }
+        }
+        "c10-trip" => {
+            let mut rng = Rng::new(seed ^ 0x1013);
+            let mut vm = Vm::new();
+            for _ in 0..n {
+                let depth = pick_depth(&mut rng);
+                let d = gen_datum(&mut rng, depth, Kind::Readable);
+                let mut o = Oracle::default();
+                let imp = impl_trip(&mut vm, &d, &mut o);
+                let e = enc_datum(&d);
+                writeln!(out, "c10-trip {} {}\t{}\tspec-c10-rt {}", o.render(), e, imp, e).unwrap();
+            }
+        }
+        "c10-eval" => {
+            let mut rng = Rng::new(seed ^ 0x1014);
+            let mut vm = Vm::new();
+            for i in 0..n {
+                let depth = pick_depth(&mut rng);
+                // every fourth datum may contain anything a Cell can hold (opaque values panic in put_cell)
+                let kind = if i % 4 == 3 { Kind::Any } else { Kind::Readable };
+                let d = gen_datum(&mut rng, depth, kind);
+                let r = eval_cell(&mut vm, &quote(d.clone()));
+                let e = enc_datum(&d);
+                if kind == Kind::Readable {
+                    writeln!(out, "c10-eval {}\t{}\tspec-id {}", e, show_eval(&r), e).unwrap();
+                } else {
+                    writeln!(out, "c10-eval {}\t{}", e, show_eval(&r)).unwrap();
+                    if r.is_err() {
+                        // a panic inside the VM may leave it unusable
+                        vm = Vm::new();
+                    }
+                }
+            }
+        }
+        "c10-chars" => {
+            let mut rng = Rng::new(seed ^ 0x1015);
+            let full = args.get(2).map(|s| s == "full").unwrap_or(false);
+            for block in scalar_blocks(full, &mut rng) {
+                // as characters: a vector of 16 character objects
+                let d = Cell::Vector(block.iter().map(|c| Cell::Char(*c)).collect());
+                let mut o = Oracle::default();
+                let imp = impl_roundtrip(&d, &mut o);
+                let e = enc_datum(&d);
+                writeln!(out, "c10-rt {} {}\t{}\tspec-c10-rt {}", o.render(), e, imp, e).unwrap();
+                // inside a string, and each alone in a dotted pair after a character
+                let d = Cell::String(block.iter().collect());
+                let imp = impl_roundtrip(&d, &mut o);
+                let e = enc_datum(&d);
+                writeln!(out, "c10-rt {} {}\t{}\tspec-c10-rt {}", o.render(), e, imp, e).unwrap();
+                let c = block[rng.below(block.len() as u64) as usize];
+                let d = Cell::new_pair(Cell::Char(c), Cell::Char(c));
+                let imp = impl_roundtrip(&d, &mut o);
+                let e = enc_datum(&d);
+                writeln!(out, "c10-rt {} {}\t{}\tspec-c10-rt {}", o.render(), e, imp, e).unwrap();
+            }
+        }
+        "sym-enc" => {
+            let mut rng = Rng::new(seed ^ 0x1801);
+            let mut vm = Vm::new();
+            for _ in 0..n {
+                let s = gen_name(&mut rng);
+                let r = call1(&mut vm, "string->symbol", Cell::String(s.clone()));
+                writeln!(out, "sym-enc {}\t{}", enc_text(&s), show_text_result(&r)).unwrap();
+            }
+        }
+        "sym-dec" => {
+            let mut rng = Rng::new(seed ^ 0x1802);
+            let mut vm = Vm::new();
+            for _ in 0..n {
+                let y = gen_spelling(&mut vm, &mut rng);
+                let r = call1(&mut vm, "symbol->string", quote(sym(&y)));
+                writeln!(out, "sym-dec {}\t{}", enc_text(&y), show_text_result(&r)).unwrap();
+            }
+        }
+        "sym-rt" => {
+            let mut rng = Rng::new(seed ^ 0x1803);
+            let mut vm = Vm::new();
+            for _ in 0..n {
+                let s = gen_name(&mut rng);
+                let form = Cell::new_list(vec![
+                    sym("symbol->string"),
+                    Cell::new_list(vec![sym("string->symbol"), Cell::String(s.clone())]),
+                ]);
+                let r = eval_cell(&mut vm, &form);
+                let e = enc_text(&s);
+                writeln!(out, "sym-rt {}\t{}\tspec-text {}", e, show_text_result(&r), e).unwrap();
+            }
+        }
+        "sym-rt2" => {
+            let mut rng = Rng::new(seed ^ 0x1804);
+            let mut vm = Vm::new();
+            for _ in 0..n {
+                let y = match rng.below(3) {
+                    0 => {
+                        let s = gen_name(&mut rng);
+                        encode_name(&mut vm, &s)
+                    }
+                    _ => gen_reader_symbol(&mut rng),
+                };
+                let form = Cell::new_list(vec![
+                    sym("eq?"),
+                    quote(sym(&y)),
+                    Cell::new_list(vec![
+                        sym("string->symbol"),
+                        Cell::new_list(vec![sym("symbol->string"), quote(sym(&y))]),
+                    ]),
+                ]);
+                let r = eval_cell(&mut vm, &form);
+                writeln!(out, "sym-rt2 {}\t{}\tspec-c18-true", enc_text(&y), show_eval(&r)).unwrap();
+            }
+        }
+        "sym-chars" => {
+            let mut rng = Rng::new(seed ^ 0x1805);
+            let full = args.get(2).map(|s| s == "full").unwrap_or(false);
+            let mut vm = Vm::new();
+            for block in scalar_blocks(full, &mut rng) {
+                // the block as one string (first character in initial position), the block after `a`,
+                // and every 4th character alone (initial position)
+                let mut strings: Vec<String> = vec![block.iter().collect(), format!("a{}", block.iter().collect::<String>())];
+                for (i, c) in block.iter().enumerate() {
+                    if full && i % 4 != (block[0] as usize / 16) % 4 {
+                        continue;
+                    }
+                    strings.push(c.to_string());
+                }
+                for s in strings {
+                    let form = Cell::new_list(vec![
+                        sym("symbol->string"),
+                        Cell::new_list(vec![sym("string->symbol"), Cell::String(s.clone())]),
+                    ]);
+                    let r = eval_cell(&mut vm, &form);
+                    let e = enc_text(&s);
+                    writeln!(out, "sym-rt {}\t{}\tspec-text {}", e, show_text_result(&r), e).unwrap();
+                    let r = call1(&mut vm, "string->symbol", Cell::String(s.clone()));
+                    writeln!(out, "sym-enc {}\t{}", e, show_text_result(&r)).unwrap();
+                }
+            }
+        }
+        "sym-eq" => {
+            let mut rng = Rng::new(seed ^ 0x1806);
+            let mut done = 0;
+            let mut tries = 0;
+            while done < n && tries < 4 * n + 100 {
+                tries += 1;
+                let mut r2 = Rng::new(rng.next());
+                let res = catch(AssertUnwindSafe(move || sym_eq_case(&mut r2)));
+                match res {
+                    Ok(Some(line)) => {
+                        writeln!(out, "{}", line).unwrap();
+                        done += 1;
+                    }
+                    Ok(None) => {}
+                    Err(m) => {
+                        writeln!(out, "c18-eq panic - - -\tpanic {}\tspec-c18-eq - -", m.replace(['\n', '\t'], " ")).unwrap();
+                        done += 1;
+                    }
+                }
+            }
+        }
+        // corpus: one datum per line as source text (read by the real reader); `;` lines are comments
+        "c10-corpus" => {
+            let text = std::fs::read_to_string(&args[2]).expect("corpus file");
+            let mut vm = Vm::new();
+            for line in text.lines() {
+                let line = line.trim_end();
+                if line.is_empty() || line.starts_with(';') {
+                    continue;
+                }
+                let d = match parse::parse_text(line) {
+                    Ok((d, None)) => d,
+                    _ => {
+                        eprintln!("corpus line does not read as one datum: {}", line);
+                        std::process::exit(3);
+                    }
+                };
+                let e = enc_datum(&d);
+                let mut o = Oracle::default();
+                let imp = impl_roundtrip(&d, &mut o);
+                writeln!(out, "c10-rt {} {}\t{}\tspec-c10-rt {}", o.render(), e, imp, e).unwrap();
+                let mut o = Oracle::default();
+                let imp = impl_trip(&mut vm, &d, &mut o);
+                writeln!(out, "c10-trip {} {}\t{}\tspec-c10-rt {}", o.render(), e, imp, e).unwrap();
+                let r = eval_cell(&mut vm, &quote(d.clone()));
+                writeln!(out, "c10-eval {}\t{}\tspec-id {}", e, show_eval(&r), e).unwrap();
+            }
+        }
+        // corpus: `<enc|dec|rt|rt2> <raw text to the end of the line>`
+        "sym-corpus" => {
+            let text = std::fs::read_to_string(&args[2]).expect("corpus file");
+            let mut vm = Vm::new();
+            for line in text.lines() {
+                if line.is_empty() || line.starts_with(';') {
+                    continue;
+                }
+                let (op, arg) = match line.split_once(' ') {
+                    Some((a, b)) => (a, b.to_string()),
+                    None => (line, String::new()),
+                };
+                let e = enc_text(&arg);
+                let s2s = |x: Cell| Cell::new_list(vec![sym("string->symbol"), x]);
+                let y2s = |x: Cell| Cell::new_list(vec![sym("symbol->string"), x]);
+                match op {
+                    "enc" => {
+                        let r = eval_cell(&mut vm, &s2s(Cell::String(arg.clone())));
+                        writeln!(out, "sym-enc {}\t{}", e, show_text_result(&r)).unwrap();
+                    }
+                    "dec" => {
+                        let r = eval_cell(&mut vm, &y2s(quote(sym(&arg))));
+                        writeln!(out, "sym-dec {}\t{}", e, show_text_result(&r)).unwrap();
+                    }
+                    "rt" => {
+                        let r = eval_cell(&mut vm, &y2s(s2s(Cell::String(arg.clone()))));
+                        writeln!(out, "sym-rt {}\t{}\tspec-text {}", e, show_text_result(&r), e).unwrap();
+                    }
+                    "rt2" => {
+                        let form = Cell::new_list(vec![sym("eq?"), quote(sym(&arg)), s2s(y2s(quote(sym(&arg))))]);
+                        let r = eval_cell(&mut vm, &form);
+                        writeln!(out, "sym-rt2 {}\t{}\tspec-c18-true", e, show_eval(&r)).unwrap();
+                    }
+                    _ => {
+                        eprintln!("bad corpus line: {}", line);
+                        std::process::exit(3);
+                    }
+                }
+            }
+        }
+        // the hypotheses FloatText / FloatLex about Rust's float formatting, on sampled finite doubles
+        "c10-floattext" => {
+            let mut rng = Rng::new(seed ^ 0x1016);
+            let mut done = 0;
+            while done < n {
+                let z = rn::random_number(&mut rng);
+                let f = match z {
+                    Number::Float(f) if f.is_finite() => f,
+                    _ => continue,
+                };
+                done += 1;
+                let t = format!("{}", Number::Float(f));
+                let mut cs = t.chars();
+                let first = cs.next().unwrap_or(' ');
+                let sub = |c: char| c.is_ascii_hexdigit() || c == '.' || c == '/';
+                let shape = (first == '-' || first.is_ascii_digit()) && t.chars().skip(1).all(sub) && t.len() > (first == '-') as usize;
+                let mark = (t.contains('.') || t.contains('e')) && !t.contains('/');
+                let back = t.parse::<f64>().map(|g| g.to_bits() == f.to_bits()).unwrap_or(false);
+                let verdict = if !shape {
+                    "shape"
+                } else if !mark {
+                    "mark"
+                } else if !back {
+                    "parse"
+                } else {
+                    "ok"
+                };
+                writeln!(out, "#oracle float-text-hypotheses {:016x}\t{}\tok", f.to_bits(), verdict).unwrap();
+            }
+        }
         "probe" => {
             let mut vm = Vm::new();
             for t in &args[2..] {
                 let t2 = t.clone();
-                let mut vmref = std::panic::AssertUnwindSafe(&mut vm);
+                let mut vmref = AssertUnwindSafe(&mut vm);
                 let r = catch(move || vmref.eval_text(&t2).map(|(c, _)| c));
                 match r {
                     Err(m) => println!("{} => panic {}", t, m),
@@ -20,11 +1064,11 @@ fn main() {
                     Ok(Err(e)) => println!("{} => err {:?}", t, e),
                 }
             }
-            let _ = Cell::Nil;
         }
         _ => {
-            eprintln!("usage: print probe <text>…");
+            eprintln!("usage: print c10-rt|c10-trip|c10-eval|c10-any|c10-print N | c10-chars full|quick | sym-enc|sym-dec|sym-rt|sym-rt2|sym-eq N | sym-chars full|quick | probe <text>…");
             std::process::exit(2);
         }
     }
+    let _ = lex::scan("");
 }
